@@ -1,0 +1,81 @@
+//go:build verif
+
+package rux
+
+// Verification seams, enabled with the build tag "verif" only.
+//
+// A deterministic simulator installs functions in VerifHooks to own the
+// nondeterministic choices of the router: which request proceeds (Yield), which
+// pooled context a request receives (PoolGet/PoolPut), and the iteration order
+// of the two map ranges whose order can reach an observable result (Order,
+// Actions). Every hook left nil passes through, so a verif build without a
+// simulator behaves like the normal build.
+
+// VerifHooks holds the installed simulator callbacks.
+var VerifHooks struct {
+	// Yield is called at named points where another request may be scheduled.
+	// It is never called while a lock of this package is held.
+	Yield func(site string)
+	// PoolGet receives the context just taken from the real pool and returns the one to use.
+	PoolGet func(r *Router, c *Context) *Context
+	// PoolPut receives the context being released and returns the one to hand to the real pool.
+	PoolPut func(r *Router, c *Context) *Context
+	// Order may permute items (it must return a permutation of them).
+	Order func(site string, items []string) []string
+	// Actions splits the REST action table into batches that are registered in order.
+	Actions func(m map[string][]string) []map[string][]string
+}
+
+func verifYield(site string) {
+	if h := VerifHooks.Yield; h != nil {
+		h(site)
+	}
+}
+
+func verifPoolGet(r *Router, c *Context) *Context {
+	if h := VerifHooks.PoolGet; h != nil {
+		return h(r, c)
+	}
+	return c
+}
+
+func verifPoolPut(r *Router, c *Context) *Context {
+	if h := VerifHooks.PoolPut; h != nil {
+		return h(r, c)
+	}
+	return c
+}
+
+func verifOrder(site string, items []string) []string {
+	if h := VerifHooks.Order; h != nil {
+		return h(site, items)
+	}
+	return items
+}
+
+func verifActionBatches(m map[string][]string) []map[string][]string {
+	if h := VerifHooks.Actions; h != nil {
+		return h(m)
+	}
+	return []map[string][]string{m}
+}
+
+// VerifNewContext returns a context exactly as the pool's New function builds it.
+func (r *Router) VerifNewContext() *Context {
+	return r.ctxPool.New().(*Context)
+}
+
+// VerifCache returns the router's route cache (nil when caching is off or no route was added).
+func (r *Router) VerifCache() *cachedRoutes { return r.cachedRoutes }
+
+// VerifKeys returns the cached keys from most to least recently used, and the
+// number of keys in the index map. Read-only; it takes no lock and must only be
+// called while no request is running.
+//
+//go:norace
+func (c *cachedRoutes) VerifKeys() (keys []string, indexed int) {
+	for e := c.list.Front(); e != nil; e = e.Next() {
+		keys = append(keys, e.Value.(*cacheNode).Key)
+	}
+	return keys, len(c.hashMap)
+}
